@@ -279,3 +279,10 @@ def h8(ctx: Ctx) -> None:
     from .c09 import r2 as switch_rule
 
     switch_rule(ctx)
+
+
+@rule("C16.R6", "the halt line and the halt length are the configured ones: nothing else (the session the rule is declared in, an earlier halt) changes them", "T10 provenance of every store outside the constructor", floor=2)
+def r6(ctx: Ctx) -> None:
+    from .events import check_configured_params
+
+    check_configured_params(ctx, THR, {"halting_time_length": "haltingTimeLength", "trigger_change_rate": "triggerChangeRate"})
